@@ -8,7 +8,7 @@ tie   : T-gen (GetStartBucketIndex / GetNextBucketIndex / GetMaxProbe / UpdateMa
 oracle: std::map twin inside the harness (independent of the Coq model)."""
 import os, re
 
-GEN = ['gen_one.json', 'gen_open2n2_ops.json', 'gen_openn1_ops.json', 'gen_unlimp.json', 'gen_limp1.json', 'gen_limp1t.json', 'gen_limp1f.json', 'gen_lim4.json', 'gen_limp.json', 'gen_open2n2w.json', 'gen_base.json', 'gen_policy.json', 'gen_limp4.json', 'gen_open2n2.json', 'gen_openn1.json', 'gen_open8.json']
+GEN = ['gen_p4base.json', 'gen_p4.json', 'gen_p4a.json', 'gen_one.json', 'gen_open2n2_ops.json', 'gen_openn1_ops.json', 'gen_unlimp.json', 'gen_limp1.json', 'gen_limp1t.json', 'gen_limp1f.json', 'gen_lim4.json', 'gen_limp.json', 'gen_open2n2w.json', 'gen_base.json', 'gen_policy.json', 'gen_limp4.json', 'gen_open2n2.json', 'gen_openn1.json', 'gen_open8.json']
 
 ITEMS = {'a': (4, 4, 0), 'b': (8, 4, 0), 'c': (8, 8, 0), 'd': (24, 8, 0), 'e': (40, 8, 0), 'f': (16, 16, 0), 'g': (1, 1, 0),
          'h': (2, 2, 0), 'u': (4, 4, 0), 'z': (12, 4, 0), 't': (3, 1, 0), 'n': (8, 4, 1), 'm': (24, 8, 1), 'x': (8, 4, 2), 'y': (40, 8, 2)}
@@ -349,6 +349,22 @@ def n1ops_cases(ctx, scale):
     return cs
 
 
+def p4ops_cases(ctx, scale):
+    """byte-for-byte: random AddCrt / Remove / Clear sequences on a real BucketLimP4<4, part getter> (real memory pools) vs the generated
+    Gen_P4A functions (hashCount 4 = 64 useful pointer bits with MemManagerDefault on this platform; a different value shows up as a mismatch)"""
+    r = ctx.rng
+    cs = []
+    for i in range(150 * scale):
+        ops = []
+        for _ in range(r.range(1, 40)):
+            x = r.below(10)
+            if x < 6: ops.append('a%d' % r.choice([r.below(2 ** 64), r.below(2 ** 40), (r.below(128) << 57) + r.below(2 ** 40)]))
+            elif x < 9: ops.append('r%d' % r.below(4))
+            else: ops.append('c')
+        cs.append('n1 40 4 %s' % ' '.join(ops))
+    return cs
+
+
 def kind_cases(ctx):
     """translator validation of the per-kind leaves (LimP1 / Lim4 / LimP WasFull rules, pool-index functions, Lim4 packing)"""
     r = ctx.rng
@@ -526,6 +542,12 @@ def run(ctx):
         ctx.tie_obligations.append({'name': 'generated BucketOpenN1 and BucketOpen2N2 AddCrt / Remove / Clear / UpdateMaxProbe == real objects, byte for byte, on %d random op sequences' % len(n1c), 'ok': not mism})
         for (i, c, a, b) in mism[:2]:
             ctx.violation('BucketOpenN1 byte state after an operation sequence differs from the generated model', {'case': c, 'tu': 'harness6', 'impl': a, 'model': b}, found_input=True)
+    if have_model:
+        p4c = p4ops_cases(ctx, scale)
+        mism, _ = ctx.correspond('limp4-ops-bytes', p4c, [exes['harness5']], [ctx.model_exe])
+        ctx.tie_obligations.append({'name': 'generated BucketLimP4 AddCrt / Remove / Clear == real object (metadata bytes, pool-index bits, null pointer), on %d random op sequences' % len(p4c), 'ok': not mism})
+        for (i, c, a, b) in mism[:2]:
+            ctx.violation('BucketLimP4 metadata after an operation sequence differs from the generated model', {'case': c, 'tu': 'harness5', 'impl': a, 'model': b}, found_input=True)
     if have_model:
         kc = kind_cases(ctx)
         mism, _ = ctx.correspond('kind-leaves', kc, [exes['harness2']], [ctx.model_exe])
